@@ -76,6 +76,8 @@ MEM_HARNESSES = [
     [[("w", 1, "tb"), ("flush",)], [("w", 2, "tb"), ("flush",)]],
     [[("w", 1, "typed"), ("validate",)], [("w", 2, "badtyped")]],
     [[("w", 1, "plain"), ("reset",)], [("w", 2, "tb"), ("serialize",)]],
+    # a validate() that raises (bad message written first) racing with two other threads
+    [[("w", 1, "badtyped"), ("validate",)], [("w", 2, "tb")], [("reset",)]],
 ]
 FILE_HARNESSES = [
     [[1, 2], [3]],
